@@ -2,7 +2,7 @@
 from frontcheck import *
 
 PROP = "C10"
-THEOREMS = ["C10", "C10Load"]
+THEOREMS = ["C10", "C10Load", "C10Incl"]
 
 
 def main(tier, seed, replay=None):
